@@ -107,7 +107,7 @@ Qed.
 
 (* ---------- write_at ---------- *)
 Lemma write_at_app P : forall M v, write_at (P ++ M) (length P) v = P ++ v ++ skipn (length v) M.
-Proof. induction P as [|p P IH]; intros M v; cbn [app length write_at]; [reflexivity|]. rewrite IH. reflexivity. Qed.
+Proof. induction P as [|p P IH]; intros M v; cbn [app length write_at]; [destruct M; reflexivity|]. rewrite IH. reflexivity. Qed.
 
 Lemma skipn_repeat {A} (a : A) k n : skipn k (repeat a n) = repeat a (n - k).
 Proof.
@@ -131,4 +131,701 @@ Lemma all_nz_no_zero A : all_nz A -> existsb (fun b => b =? 0) A = false.
 Proof.
   unfold all_nz. induction A as [|a A IH]; cbn [forallb existsb]; intros H; [reflexivity|].
   apply andb_true_iff in H as [Ha HA]. unfold nzb in Ha. apply negb_true_iff in Ha. rewrite Ha. apply IH. exact HA.
+Qed.
+
+(* ---------- list helpers ---------- *)
+Lemma firstn_exact {A} (X Y : list A) n : n = length X -> firstn n (X ++ Y) = X.
+Proof. intros ->. rewrite firstn_app, Nat.sub_diag, firstn_all. cbn [firstn]. apply app_nil_r. Qed.
+
+Lemma skipn_exact {A} (X Y : list A) n : n = length X -> skipn n (X ++ Y) = Y.
+Proof. intros ->. rewrite skipn_app, Nat.sub_diag, skipn_all. reflexivity. Qed.
+
+Lemma skipn_repeat_app {A} (a : A) k n Y : (k <= n)%nat -> skipn k (repeat a n ++ Y) = repeat a (n - k) ++ Y.
+Proof.
+  intros H. rewrite skipn_app, skipn_repeat, repeat_length.
+  replace (k - n)%nat with O by lia. reflexivity.
+Qed.
+
+Lemma encs_cons x l : encs (x :: l) = enc x ++ encs l.
+Proof. reflexivity. Qed.
+
+(* ---------- one rotation at a relay hop ---------- *)
+Lemma rotate_mid f A B z r extra :
+  label_ok f = true -> label_ok r = true -> all_nz A -> all_nz B ->
+  (esize r <= z + esize f)%nat ->
+  rotate (enc f ++ A ++ 0 :: B ++ repeat 0 z) extra r =
+  Ok (f, A ++ 0 :: B ++ rev (enc r) ++ repeat 0 (z + esize f - esize r), extra).
+Proof.
+  intros Hf Hr HA HB Hroom.
+  destruct (label_ok_lt _ Hf) as [Hf0 Hf1]. destruct (label_ok_lt _ Hr) as [Hr0 Hr1].
+  pose proof (esize_pos f) as Hfp. pose proof (esize_pos r) as Hrp.
+  unfold rotate. rewrite uvarint_enc by assumption.
+  replace (Z.of_nat (esize f) =? 0)%Z with false by (symmetry; apply Z.eqb_neq; lia).
+  replace (Z.of_nat (esize f) <? 0)%Z with false by (symmetry; apply Z.ltb_ge; lia).
+  rewrite Nat2Z.id.
+  rewrite (skipn_exact (enc f)) by (symmetry; apply enc_length; assumption).
+  (* the shifted block *)
+  assert (Hb1 : (A ++ 0 :: B ++ repeat 0 z) ++ repeat 0 (esize f)
+                = (A ++ 0 :: B) ++ 0 :: repeat 0 (z + esize f - 1)).
+  { rewrite <- !app_assoc. cbn [app]. f_equal. f_equal. rewrite <- app_assoc. f_equal.
+    rewrite repeat_app_plus. replace (z + esize f)%nat with (S (z + esize f - 1)) at 1 by lia. reflexivity. }
+  rewrite Hb1.
+  replace (f =? 0) with false by (symmetry; apply N.eqb_neq; lia).
+  assert (Hslot : find_slot false ((A ++ 0 :: B) ++ 0 :: repeat 0 (z + esize f - 1)) = length (A ++ 0 :: B)).
+  { unfold find_slot. rewrite <- app_assoc. cbn [app].
+    rewrite find_slot_two_zeros by assumption. rewrite app_length. cbn [length]. lia. }
+  rewrite Hslot.
+  assert (Hlab : length (rev (enc r)) = esize r) by (rewrite rev_length; apply enc_length; assumption).
+  rewrite Hlab.
+  assert (Hlen : length (enc f ++ A ++ 0 :: B ++ repeat 0 z) = Nat.add (Nat.add (esize f) (length (A ++ 0 :: B))) z).
+  { repeat (rewrite app_length || (cbn [length]) || rewrite repeat_length). rewrite enc_length by assumption. lia. }
+  rewrite Hlen.
+  match goal with |- context [Nat.leb ?a ?b] => replace (Nat.leb a b) with true by (symmetry; apply Nat.leb_le; lia) end.
+  rewrite all_nz_no_zero by (apply all_nz_rev, enc_nonzero; assumption).
+  rewrite andb_false_r.
+  rewrite <- app_assoc. rewrite write_at_app. rewrite Hlab.
+  replace (0 :: repeat 0 (z + esize f - 1)) with (repeat 0 (z + esize f)) by
+    (replace (z + esize f)%nat with (S (z + esize f - 1)) at 1 by lia; reflexivity).
+  rewrite skipn_repeat_app by lia.
+  replace (f mod 65536) with f by (symmetry; apply N.mod_small; assumption).
+  assert (Hall : (A ++ 0 :: B) ++ rev (enc r) ++ repeat 0 (z + esize f - esize r) ++ extra
+               = ((A ++ 0 :: B) ++ rev (enc r) ++ repeat 0 (z + esize f - esize r)) ++ extra)
+    by (rewrite <- !app_assoc; reflexivity).
+  rewrite Hall.
+  rewrite firstn_exact, skipn_exact.
+  - rewrite <- !app_assoc. reflexivity.
+  - rewrite !app_length, Hlab, repeat_length. lia.
+  - rewrite !app_length, Hlab, repeat_length. lia.
+Qed.
+
+Lemma uvarint_zero t : uvarint (0 :: t) = (0, 1%Z).
+Proof.
+  assert (H : trunc64 (N.lor 0 (N.shiftl 0 0)) = 0) by (vm_compute; reflexivity).
+  unfold uvarint. cbn [uvarint_go Nat.eqb]. 
+  replace (0 <? 128) with true by reflexivity. cbn [andb]. rewrite H. reflexivity.
+Qed.
+
+Lemma enc_zero : enc 0 = [0].
+Proof. reflexivity. Qed.
+
+(* rotation at the origin: return label 0, nothing visible changes but the shift *)
+Lemma rotate_first f A z extra :
+  label_ok f = true -> all_nz A ->
+  rotate (enc f ++ A ++ repeat 0 z) extra 0 = Ok (f, A ++ repeat 0 (z + esize f), extra).
+Proof.
+  intros Hf HA. destruct (label_ok_lt _ Hf) as [Hf0 Hf1]. pose proof (esize_pos f) as Hfp.
+  unfold rotate. rewrite uvarint_enc by assumption.
+  replace (Z.of_nat (esize f) =? 0)%Z with false by (symmetry; apply Z.eqb_neq; lia).
+  replace (Z.of_nat (esize f) <? 0)%Z with false by (symmetry; apply Z.ltb_ge; lia).
+  rewrite Nat2Z.id.
+  rewrite (skipn_exact (enc f)) by (symmetry; apply enc_length; assumption).
+  replace (f =? 0) with false by (symmetry; apply N.eqb_neq; lia).
+  replace (f mod 65536) with f by (symmetry; apply N.mod_small; assumption).
+  rewrite enc_zero. cbn [rev app length]. replace (0 <? 0) with false by reflexivity. cbn [andb].
+  rewrite <- app_assoc, repeat_app_plus.
+  assert (Hlen : length (enc f ++ A ++ repeat 0 z) = Nat.add (Nat.add (esize f) (length A)) z).
+  { repeat (rewrite app_length || rewrite repeat_length). rewrite enc_length by assumption. lia. }
+  rewrite Hlen.
+  destruct (z + esize f)%nat as [|[|m]] eqn:Hzk; [lia| |].
+  - (* exactly one zero after the forward labels: default slot = last byte *)
+    cbn [repeat]. unfold find_slot. rewrite find_slot_one_zero_end by assumption.
+    rewrite app_length. cbn [length]. replace (length A + 1 - 1)%nat with (length A) by lia.
+    match goal with |- context [Nat.leb ?a ?b] => replace (Nat.leb a b) with true by (symmetry; apply Nat.leb_le; lia) end.
+    rewrite <- app_assoc. rewrite write_at_app. cbn [length skipn app].
+    replace (A ++ 0 :: extra) with ((A ++ [0]) ++ extra) by (rewrite <- app_assoc; reflexivity).
+    rewrite firstn_exact, skipn_exact; [reflexivity| |]; rewrite app_length; cbn [length]; lia.
+  - (* two or more zeros: slot = second zero *)
+    cbn [repeat]. unfold find_slot.
+    replace (A ++ 0 :: 0 :: repeat 0 m) with (A ++ 0 :: [] ++ 0 :: repeat 0 m) by reflexivity.
+    rewrite find_slot_two_zeros by (assumption || reflexivity). cbn [length app].
+    match goal with |- context [Nat.leb ?a ?b] => replace (Nat.leb a b) with true by (symmetry; apply Nat.leb_le; lia) end.
+    replace ((A ++ 0 :: 0 :: repeat 0 m) ++ extra) with ((A ++ [0]) ++ 0 :: repeat 0 m ++ extra)
+      by (rewrite <- !app_assoc; reflexivity).
+    replace (0 + length A + 1 + 0)%nat with (length (A ++ [0])) by (rewrite app_length; cbn [length]; lia).
+    rewrite write_at_app. cbn [length skipn app].
+    replace ((A ++ [0]) ++ 0 :: repeat 0 m ++ extra) with ((A ++ 0 :: 0 :: repeat 0 m) ++ extra)
+      by (rewrite <- !app_assoc; reflexivity).
+    rewrite firstn_exact, skipn_exact; [reflexivity| |]; rewrite app_length; cbn [length]; rewrite repeat_length; lia.
+Qed.
+
+(* rotation at the destination: reads label 0, writes the last return label *)
+Lemma rotate_last B z r extra :
+  label_ok r = true -> all_nz B -> (esize r <= z + 1)%nat ->
+  rotate (0 :: B ++ repeat 0 z) extra r =
+  Ok (0, B ++ rev (enc r) ++ repeat 0 (z + 1 - esize r), extra).
+Proof.
+  intros Hr HB Hroom. destruct (label_ok_lt _ Hr) as [Hr0 Hr1]. pose proof (esize_pos r) as Hrp.
+  unfold rotate. rewrite uvarint_zero.
+  replace (1 =? 0)%Z with false by reflexivity. replace (1 <? 0)%Z with false by reflexivity.
+  replace (Z.to_nat 1) with 1%nat by reflexivity. cbn [skipn repeat].
+  replace (0 =? 0) with true by reflexivity.
+  rewrite <- app_assoc. replace (repeat 0 z ++ [0]) with (0 :: repeat 0 z)
+    by (change [0] with (repeat 0 1); rewrite repeat_app_plus; replace (z + 1)%nat with (S z) by lia; reflexivity).
+  unfold find_slot. rewrite find_slot_seen by assumption. cbn [Nat.add].
+  assert (Hlab : length (rev (enc r)) = esize r) by (rewrite rev_length; apply enc_length; assumption).
+  rewrite Hlab. cbn [length]. rewrite app_length, repeat_length.
+  match goal with |- context [Nat.leb ?a ?b] => replace (Nat.leb a b) with true by (symmetry; apply Nat.leb_le; lia) end.
+  rewrite all_nz_no_zero by (apply all_nz_rev, enc_nonzero; assumption). rewrite andb_false_r.
+  rewrite <- app_assoc. rewrite write_at_app, Hlab.
+  replace (0 :: repeat 0 z) with (repeat 0 (S z)) by reflexivity.
+  rewrite skipn_repeat_app by lia.
+  replace (0 mod 65536) with 0 by reflexivity.
+  replace (B ++ rev (enc r) ++ repeat 0 (S z - esize r) ++ extra)
+    with ((B ++ rev (enc r) ++ repeat 0 (S z - esize r)) ++ extra) by (rewrite <- !app_assoc; reflexivity).
+  rewrite firstn_exact, skipn_exact.
+  - replace (z + 1 - esize r)%nat with (S z - esize r)%nat by lia. reflexivity.
+  - rewrite !app_length, Hlab, repeat_length. lia.
+  - rewrite !app_length, Hlab, repeat_length. lia.
+Qed.
+
+(* ---------- the whole forward traversal ---------- *)
+Definition rencs (l : list N) : list N := concat (map (fun x => rev (enc x)) l).
+
+Definition labels_ok (l : list N) : Prop := forallb label_ok l = true.
+
+Lemma encs_nz l : labels_ok l -> all_nz (encs l).
+Proof.
+  unfold labels_ok. induction l as [|x l IH]; cbn [forallb]; intros H; [reflexivity|].
+  apply andb_true_iff in H as [Hx Hl]. rewrite encs_cons. apply all_nz_app; [apply enc_nonzero; exact Hx|apply IH; exact Hl].
+Qed.
+
+Lemma rencs_nz l : labels_ok l -> all_nz (rencs l).
+Proof.
+  unfold labels_ok, rencs. induction l as [|x l IH]; cbn [forallb map concat]; intros H; [reflexivity|].
+  apply andb_true_iff in H as [Hx Hl]. apply all_nz_app; [apply all_nz_rev, enc_nonzero; exact Hx|apply IH; exact Hl].
+Qed.
+
+Definition lenl (l : list N) : nat := sum_nat (map esize l).
+
+Lemma encs_length l : labels_ok l -> length (encs l) = lenl l.
+Proof.
+  unfold labels_ok, lenl. induction l as [|x l IH]; cbn [forallb map sum_nat]; intros H; [reflexivity|].
+  apply andb_true_iff in H as [Hx Hl]. rewrite encs_cons, app_length, IH by assumption.
+  rewrite enc_length by (apply label_ok_lt in Hx; tauto). reflexivity.
+Qed.
+
+Lemma rencs_length l : labels_ok l -> length (rencs l) = lenl l.
+Proof.
+  unfold labels_ok, lenl, rencs. induction l as [|x l IH]; cbn [forallb map sum_nat concat]; intros H; [reflexivity|].
+  apply andb_true_iff in H as [Hx Hl]. rewrite app_length, rev_length, IH by assumption.
+  rewrite enc_length by (apply label_ok_lt in Hx; tauto). reflexivity.
+Qed.
+
+Lemma rencs_app a b : rencs (a ++ b) = rencs a ++ rencs b.
+Proof. unfold rencs. rewrite map_app, concat_app. reflexivity. Qed.
+
+(* room Frest Rrest z: with z slack zeros now, every remaining rotation finds room *)
+Fixpoint room (Frest Rrest : list N) (z : nat) : Prop :=
+  match Frest, Rrest with
+  | f :: Ft, r :: Rt => (esize r <= z + esize f)%nat /\ room Ft Rt (z + esize f - esize r)
+  | [], [r] => (esize r <= z + 1)%nat
+  | _, _ => False
+  end.
+
+(* slack after the remaining traversal *)
+Fixpoint final_slack (Frest Rrest : list N) (z : nat) : nat :=
+  match Frest, Rrest with
+  | f :: Ft, r :: Rt => final_slack Ft Rt (z + esize f - esize r)
+  | [], [r] => (z + 1 - esize r)%nat
+  | _, _ => z
+  end.
+
+Lemma traverse_mid : forall Frest Rrest B z extra,
+  labels_ok Frest -> labels_ok Rrest -> all_nz B -> room Frest Rrest z ->
+  traverse (encs Frest ++ 0 :: B ++ repeat 0 z) extra Rrest =
+  Ok (Frest ++ [0], B ++ rencs Rrest ++ repeat 0 (final_slack Frest Rrest z), extra).
+Proof.
+  induction Frest as [|f Ft IH]; intros Rrest B z extra HF HR HB Hroom.
+  - destruct Rrest as [|r [|r' Rt]]; cbn [room] in Hroom; try contradiction.
+    unfold labels_ok in HR. cbn [forallb] in HR. apply andb_true_iff in HR as [Hr _].
+    cbn [encs map concat app traverse]. rewrite rotate_last by assumption. cbn [bind traverse].
+    cbn [final_slack rencs map concat]. rewrite app_nil_r. reflexivity.
+  - destruct Rrest as [|r Rt]; cbn [room] in Hroom; [contradiction|]. destruct Hroom as [Hr1 Hroom].
+    unfold labels_ok in HF, HR. cbn [forallb] in HF, HR.
+    apply andb_true_iff in HF as [Hf HFt]. apply andb_true_iff in HR as [Hr HRt].
+    rewrite encs_cons, <- app_assoc. cbn [traverse].
+    rewrite rotate_mid; [|assumption|assumption|apply encs_nz; exact HFt|assumption|assumption].
+    cbn [bind].
+    replace (encs Ft ++ 0 :: B ++ rev (enc r) ++ repeat 0 (z + esize f - esize r))
+      with (encs Ft ++ 0 :: (B ++ rev (enc r)) ++ repeat 0 (z + esize f - esize r))
+      by (rewrite <- app_assoc; reflexivity).
+    rewrite IH; [|assumption|assumption|apply all_nz_app; [assumption|apply all_nz_rev, enc_nonzero; assumption]|assumption].
+    cbn [bind final_slack]. f_equal. f_equal. f_equal.
+    change (r :: Rt) with ([r] ++ Rt). rewrite rencs_app. cbn [rencs map concat]. rewrite app_nil_r.
+    rewrite <- !app_assoc. reflexivity.
+Qed.
+
+(* the complete traversal of a valid path, from the built forward block *)
+Lemma traverse_all f0 Ft R z extra :
+  labels_ok (f0 :: Ft) -> labels_ok R -> room Ft R (z + esize f0 - 1) ->
+  traverse (encs (f0 :: Ft) ++ repeat 0 z) extra (0 :: R) =
+  Ok ((f0 :: Ft) ++ [0], rencs R ++ repeat 0 (final_slack Ft R (z + esize f0 - 1)), extra).
+Proof.
+  intros HF HR Hroom. unfold labels_ok in HF. cbn [forallb] in HF. apply andb_true_iff in HF as [Hf HFt].
+  pose proof (esize_pos f0) as Hp.
+  rewrite encs_cons, <- app_assoc. cbn [traverse].
+  rewrite rotate_first; [|assumption|apply encs_nz; exact HFt]. cbn [bind].
+  replace (repeat 0 (z + esize f0)) with (0 :: [] ++ repeat 0 (z + esize f0 - 1))
+    by (replace (z + esize f0)%nat with (S (z + esize f0 - 1)) at 2 by lia; reflexivity).
+  rewrite traverse_mid; [|assumption|assumption|reflexivity|assumption].
+  cbn [bind app]. reflexivity.
+Qed.
+
+(* ---------- from CalculateBlockSize to [room] ---------- *)
+Lemma sum_nat_app a b : sum_nat (a ++ b) = (sum_nat a + sum_nat b)%nat.
+Proof. induction a as [|x a IH]; cbn [app sum_nat]; [reflexivity|]. rewrite IH. lia. Qed.
+
+Lemma lenl_app a b : lenl (a ++ b) = (lenl a + lenl b)%nat.
+Proof. unfold lenl. rewrite map_app. apply sum_nat_app. Qed.
+
+Lemma lenl_cons x l : lenl (x :: l) = (esize x + lenl l)%nat.
+Proof. reflexivity. Qed.
+
+Lemma max_list_ge l x : In x l -> (x <= max_list l)%nat.
+Proof. induction l as [|y l IH]; cbn [In max_list]; [tauto|]. intros [->|H]; [lia|]. specialize (IH H). lia. Qed.
+
+Lemma max_list_attained l : l <> [] -> In (max_list l) l.
+Proof.
+  induction l as [|y l IH]; [congruence|]. intros _. cbn [max_list].
+  destruct l as [|y' l']; [cbn [max_list]; left; lia|].
+  assert (Hne : y' :: l' <> []) by discriminate. specialize (IH Hne).
+  destruct (Nat.max_spec y (max_list (y' :: l'))) as [[_ ->]|[_ ->]]; [right; exact IH|left; reflexivity].
+Qed.
+
+Lemma room_from_bound : forall Frest Rrest done z total,
+  length Rrest = S (length Frest) ->
+  total = (lenl Frest + 1 + done + z)%nat ->
+  (forall k, (1 <= k <= length Frest)%nat ->
+     (lenl (skipn k Frest) + 1 + done + lenl (firstn k Rrest) <= total)%nat) ->
+  (done + lenl Rrest <= total)%nat ->
+  room Frest Rrest z.
+Proof.
+  induction Frest as [|f Ft IH]; intros Rrest done z total Hlen Htot Hk Hfin.
+  - destruct Rrest as [|r [|? ?]]; cbn [length] in Hlen; try discriminate.
+    cbn [room]. unfold lenl in *. cbn [map sum_nat] in *. lia.
+  - destruct Rrest as [|r Rt]; cbn [length] in Hlen; [discriminate|]. cbn [room].
+    assert (H1 : (esize r <= z + esize f)%nat).
+    { specialize (Hk 1%nat). cbn [length skipn firstn] in Hk.
+      rewrite lenl_cons in Htot. unfold lenl at 2 in Hk. cbn [map sum_nat] in Hk. lia. }
+    split; [exact H1|].
+    apply (IH Rt (done + esize r)%nat (z + esize f - esize r)%nat total).
+    + lia.
+    + rewrite lenl_cons in Htot. lia.
+    + intros k Hkr. specialize (Hk (S k)). cbn [length skipn firstn] in Hk.
+      rewrite lenl_cons in Hk. lia.
+    + rewrite lenl_cons in Hfin. lia.
+Qed.
+
+Lemma final_slack_spec : forall Frest Rrest z, room Frest Rrest z ->
+  (final_slack Frest Rrest z + lenl Rrest = lenl Frest + 1 + z)%nat.
+Proof.
+  induction Frest as [|f Ft IH]; intros Rrest z H.
+  - destruct Rrest as [|r [|? ?]]; cbn [room] in H; try contradiction.
+    cbn [final_slack]. unfold lenl. cbn [map sum_nat]. lia.
+  - destruct Rrest as [|r Rt]; cbn [room] in H; [contradiction|]. destruct H as [H1 H2].
+    cbn [final_slack]. rewrite !lenl_cons. specialize (IH _ _ H2). lia.
+Qed.
+
+(* windows of the size simulation for a valid path *)
+Lemma window_0 A B m : length A = m -> window (A ++ 1%nat :: B) m 0 = sum_nat A.
+Proof. intros H. unfold window. cbn [skipn]. rewrite firstn_exact by (symmetry; exact H). reflexivity. Qed.
+
+Lemma window_last A B m : length A = m -> length B = m ->
+  window (A ++ 1%nat :: B) m (m + 1) = sum_nat B.
+Proof.
+  intros HA HB. unfold window.
+  replace (A ++ 1%nat :: B) with ((A ++ [1%nat]) ++ B) by (rewrite <- app_assoc; reflexivity).
+  rewrite skipn_exact by (rewrite app_length; cbn [length]; lia).
+  rewrite firstn_all2 by lia. reflexivity.
+Qed.
+
+Lemma window_mid A B m i : length A = m -> length B = m -> (1 <= i <= m)%nat ->
+  window (A ++ 1%nat :: B) m i = (sum_nat (skipn i A) + 1 + sum_nat (firstn (i - 1) B))%nat.
+Proof.
+  intros HA HB Hi. unfold window.
+  rewrite skipn_app. replace (i - length A)%nat with O by lia. cbn [skipn].
+  rewrite firstn_app, skipn_length.
+  rewrite (firstn_all2 (n := m)) by (rewrite skipn_length; lia).
+  replace (m - (length A - i))%nat with (S (i - 1)) by lia. cbn [firstn].
+  rewrite sum_nat_app. cbn [sum_nat]. lia.
+Qed.
+
+(* structure of mk_hops *)
+Lemma combine_fst_snd {X Y} : forall (a : list X) (b : list Y), length a = length b ->
+  map fst (combine a b) = a /\ map snd (combine a b) = b.
+Proof.
+  induction a as [|x a IH]; intros [|y b] H; cbn [length] in H; try discriminate; cbn [combine map fst snd].
+  - split; reflexivity.
+  - destruct (IH b) as [H1 H2]; [lia|]. rewrite H1, H2. split; reflexivity.
+Qed.
+
+Lemma last_map {X Y} (g : X -> Y) : forall (l : list X) d, last (map g l) (g d) = g (last l d).
+Proof. induction l as [|x [|y l] IH]; intros d; cbn [map last] in *; try reflexivity. apply IH. Qed.
+
+Lemma mk_hops_length F R : length F = length R -> length (mk_hops F R) = S (length F).
+Proof.
+  intros H. unfold mk_hops. rewrite combine_length, app_length. cbn [length]. lia.
+Qed.
+
+Lemma mk_hops_fst F R : length F = length R -> map fst (mk_hops F R) = F ++ [0].
+Proof. intros H. apply combine_fst_snd. rewrite app_length. cbn [length]. lia. Qed.
+
+Lemma mk_hops_snd F R : length F = length R -> map snd (mk_hops F R) = 0 :: R.
+Proof. intros H. apply combine_fst_snd. rewrite app_length. cbn [length]. lia. Qed.
+
+Lemma size_sim_mk_hops F R : length F = length R ->
+  size_sim (mk_hops F R) = map esize F ++ 1%nat :: map esize R.
+Proof.
+  intros H. unfold size_sim. rewrite mk_hops_length by assumption.
+  replace (S (length F) - 1)%nat with (length F) by lia.
+  rewrite <- (map_map fst esize), <- (map_map snd esize).
+  rewrite <- firstn_map, mk_hops_fst, mk_hops_snd by assumption.
+  rewrite firstn_exact by reflexivity. reflexivity.
+Qed.
+
+Lemma mk_hops_last F R : length F = length R -> fst (last (mk_hops F R) (0, 0)) = 0.
+Proof.
+  intros H. change 0 with (fst (0, 0)) at 3. rewrite <- (last_map fst).
+  rewrite mk_hops_fst by assumption. cbn [fst]. apply last_last.
+Qed.
+
+Lemma calc_size_mk_hops F R sz :
+  length F = length R -> F <> [] ->
+  calc_size (mk_hops F R) = Ok sz ->
+  sz = max_list (map (window (map esize F ++ 1%nat :: map esize R) (length F)) (seq 0 (length F + 2))) /\ (sz <= 255)%nat.
+Proof.
+  intros Hlen Hne H. unfold calc_size in H.
+  destruct (mk_hops F R) as [|h0 hs] eqn:Hh.
+  { apply (f_equal (@length _)) in Hh. rewrite mk_hops_length in Hh by assumption. discriminate. }
+  assert (Hsnd : snd h0 = 0).
+  { pose proof (mk_hops_snd F R Hlen) as Hs. rewrite Hh in Hs. cbn [map] in Hs. inversion Hs. reflexivity. }
+  rewrite Hsnd in H. rewrite <- Hh in H. rewrite mk_hops_last in H by assumption.
+  cbn [N.eqb andb negb] in H. replace (0 =? 0) with true in H by reflexivity. cbn [andb negb] in H.
+  rewrite size_sim_mk_hops, mk_hops_length in H by assumption.
+  replace (S (length F) - 1)%nat with (length F) in H by lia.
+  replace (S (length F) + 1)%nat with (length F + 2)%nat in H by lia.
+  destruct (Nat.ltb_spec 255 (max_list (map (window (map esize F ++ 1%nat :: map esize R) (length F)) (seq 0 (length F + 2)))));
+    inversion H; subst. split; [reflexivity|lia].
+Qed.
+
+Lemma lenl_skipn l k : lenl (skipn k l) = sum_nat (skipn k (map esize l)).
+Proof. unfold lenl. rewrite skipn_map. reflexivity. Qed.
+Lemma lenl_firstn l k : lenl (firstn k l) = sum_nat (firstn k (map esize l)).
+Proof. unfold lenl. rewrite firstn_map. reflexivity. Qed.
+
+Lemma calc_size_room f0 Ft R sz :
+  length (f0 :: Ft) = length R ->
+  calc_size (mk_hops (f0 :: Ft) R) = Ok sz ->
+  (lenl (f0 :: Ft) <= sz)%nat /\ (lenl R <= sz)%nat /\ (sz <= 255)%nat /\
+  room Ft R (sz - lenl (f0 :: Ft) + esize f0 - 1) /\
+  (exists i, (i <= length R + 1)%nat /\
+     window (map esize (f0 :: Ft) ++ 1%nat :: map esize R) (length R) i = sz).
+Proof.
+  intros Hlen H. apply calc_size_mk_hops in H; [|assumption|discriminate]. destruct H as [HS H255].
+  set (A := map esize (f0 :: Ft)) in *. set (B := map esize R) in *. set (m := length (f0 :: Ft)) in *.
+  assert (HA : length A = m) by (unfold A; apply map_length).
+  assert (HB : length B = m) by (unfold B; rewrite map_length; lia).
+  assert (Hwin : forall i, (i <= m + 1)%nat -> (window (A ++ 1%nat :: B) m i <= sz)%nat).
+  { intros i Hi. rewrite HS. apply max_list_ge. apply in_map. apply in_seq. lia. }
+  assert (H0 : (lenl (f0 :: Ft) <= sz)%nat).
+  { specialize (Hwin 0%nat). rewrite window_0 in Hwin by assumption. apply Hwin. lia. }
+  assert (Hn : (lenl R <= sz)%nat).
+  { specialize (Hwin (m + 1)%nat). rewrite window_last in Hwin by assumption. apply Hwin. lia. }
+  split; [exact H0|]. split; [exact Hn|]. split; [exact H255|]. split.
+  - pose proof (esize_pos f0) as Hp. rewrite lenl_cons in *.
+    apply (room_from_bound Ft R 0%nat _ sz).
+    + unfold m in Hlen. cbn [length] in Hlen. lia.
+    + lia.
+    + intros k Hk. specialize (Hwin (S k)).
+      rewrite window_mid in Hwin by (try assumption; unfold m; cbn [length]; lia).
+      unfold A in Hwin. cbn [map skipn] in Hwin. replace (S k - 1)%nat with k in Hwin by lia.
+      rewrite lenl_skipn, lenl_firstn. fold B.
+      assert (S k <= m + 1)%nat by (unfold m; cbn [length]; lia). specialize (Hwin H). lia.
+    + lia.
+  - assert (Hin : In sz (map (window (A ++ 1%nat :: B) m) (seq 0 (m + 2)))).
+    { rewrite HS. apply max_list_attained. replace (m + 2)%nat with (S (m + 1)) by lia. cbn [seq map]. discriminate. }
+    apply in_map_iff in Hin as (i & Hi & Hseq). apply in_seq in Hseq. exists i. split; [lia|].
+    replace (length R) with m by (unfold m; exact Hlen). exact Hi.
+Qed.
+
+(* ---------- windows bound => room (shared by the forward and the mirrored path) ---------- *)
+Lemma room_of_windows f0 Ft R sz :
+  length (f0 :: Ft) = length R ->
+  (forall i, (i <= length R + 1)%nat ->
+     (window (map esize (f0 :: Ft) ++ 1%nat :: map esize R) (length R) i <= sz)%nat) ->
+  (lenl (f0 :: Ft) <= sz)%nat /\ (lenl R <= sz)%nat /\
+  room Ft R (sz - lenl (f0 :: Ft) + esize f0 - 1).
+Proof.
+  intros Hlen Hwin.
+  set (A := map esize (f0 :: Ft)) in *. set (B := map esize R) in *.
+  assert (HA : length A = length R) by (unfold A; rewrite map_length; exact Hlen).
+  assert (HB : length B = length R) by (unfold B; apply map_length).
+  assert (H0 : (lenl (f0 :: Ft) <= sz)%nat).
+  { specialize (Hwin 0%nat). rewrite window_0 in Hwin by assumption. apply Hwin. lia. }
+  assert (Hn : (lenl R <= sz)%nat).
+  { specialize (Hwin (length R + 1)%nat). rewrite window_last in Hwin by assumption. apply Hwin. lia. }
+  split; [exact H0|]. split; [exact Hn|].
+  pose proof (esize_pos f0) as Hp. rewrite lenl_cons in *. cbn [length] in Hlen.
+  apply (room_from_bound Ft R 0%nat _ sz).
+  - lia.
+  - lia.
+  - intros k Hk. specialize (Hwin (S k)).
+    rewrite window_mid in Hwin by (try assumption; lia).
+    unfold A in Hwin. cbn [map skipn] in Hwin. replace (S k - 1)%nat with k in Hwin by lia.
+    rewrite lenl_skipn, lenl_firstn. fold B.
+    assert (H : (S k <= length R + 1)%nat) by lia. specialize (Hwin H). lia.
+  - lia.
+Qed.
+
+(* mirrored windows *)
+Lemma sum_nat_rev l : sum_nat (rev l) = sum_nat l.
+Proof. induction l as [|x l IH]; cbn [rev sum_nat]; [reflexivity|]. rewrite sum_nat_app. cbn [sum_nat]. lia. Qed.
+
+Lemma window_rev sim m i : (i + m <= length sim)%nat ->
+  window (rev sim) m i = window sim m (length sim - m - i).
+Proof.
+  intros H. unfold window. rewrite skipn_rev, firstn_rev, firstn_length.
+  rewrite sum_nat_rev. replace (Nat.min (length sim - i) (length sim)) with (length sim - i)%nat by lia.
+  rewrite skipn_firstn_comm. 
+  replace (length sim - i - (length sim - i - m))%nat with m by lia.
+  replace (length sim - m - i)%nat with (length sim - i - m)%nat by lia. reflexivity.
+Qed.
+
+Lemma labels_ok_rev l : labels_ok l -> labels_ok (rev l).
+Proof.
+  unfold labels_ok. intros H. apply forallb_forall. intros x Hx. apply in_rev in Hx.
+  rewrite forallb_forall in H. apply H. exact Hx.
+Qed.
+
+Lemma lenl_rev l : lenl (rev l) = lenl l.
+Proof. unfold lenl. rewrite map_rev. apply sum_nat_rev. Qed.
+
+Lemma windows_mirror F R sz : length F = length R ->
+  (forall i, (i <= length R + 1)%nat ->
+     (window (map esize F ++ 1%nat :: map esize R) (length R) i <= sz)%nat) ->
+  (forall i, (i <= length (rev F) + 1)%nat ->
+     (window (map esize (rev R) ++ 1%nat :: map esize (rev F)) (length (rev F)) i <= sz)%nat).
+Proof.
+  intros Hlen Hwin i Hi. rewrite rev_length in *.
+  set (sim := map esize F ++ 1%nat :: map esize R).
+  assert (Hsim : map esize (rev R) ++ 1%nat :: map esize (rev F) = rev sim).
+  { unfold sim. rewrite rev_app_distr. cbn [rev]. rewrite <- !map_rev, <- app_assoc. reflexivity. }
+  assert (Hl : length sim = (length F + length F + 1)%nat).
+  { unfold sim. rewrite app_length. cbn [length]. rewrite !map_length. lia. }
+  rewrite Hsim, window_rev by lia. rewrite Hl.
+  replace (length F) with (length R) at 1 by lia. rewrite Hlen. apply Hwin. lia.
+Qed.
+
+(* ---------- blocks built for a valid path ---------- *)
+Lemma encs_app a b : encs (a ++ b) = encs a ++ encs b.
+Proof. unfold encs. rewrite map_app, concat_app. reflexivity. Qed.
+
+Lemma rev_rencs l : rev (rencs l) = encs (rev l).
+Proof.
+  induction l as [|x l IH]; [reflexivity|].
+  change (rencs (x :: l)) with (rev (enc x) ++ rencs l).
+  rewrite rev_app_distr, rev_involutive, IH. cbn [rev]. rewrite encs_app. cbn [encs map concat].
+  rewrite app_nil_r. reflexivity.
+Qed.
+
+Lemma rev_repeat0 k : rev (repeat 0 k) = repeat 0 k.
+Proof.
+  induction k as [|k IH]; [reflexivity|]. cbn [repeat rev]. rewrite IH.
+  change [0] with (repeat 0 1). rewrite repeat_app_plus. replace (k + 1)%nat with (S k) by lia. reflexivity.
+Qed.
+
+Lemma drop_zeros_repeat k Y : drop_zeros (repeat 0 k ++ Y) = drop_zeros Y.
+Proof. induction k as [|k IH]; [reflexivity|]. cbn [repeat app drop_zeros]. rewrite N.eqb_refl. exact IH. Qed.
+
+Lemma drop_zeros_nz Y : all_nz Y -> drop_zeros Y = Y.
+Proof.
+  destruct Y as [|y Y]; [reflexivity|]. unfold all_nz. cbn [forallb drop_zeros]. intros H.
+  apply andb_true_iff in H as [Hy _]. unfold nzb in Hy. apply negb_true_iff in Hy. rewrite Hy. reflexivity.
+Qed.
+
+Lemma transform_rencs R k : labels_ok R -> transform (rencs R ++ repeat 0 k) = encs (rev R) ++ repeat 0 k.
+Proof.
+  intros HR. unfold transform. rewrite rev_app_distr, rev_repeat0, rev_rencs, drop_zeros_repeat.
+  rewrite drop_zeros_nz by (apply encs_nz, labels_ok_rev; exact HR).
+  rewrite app_length, repeat_length. f_equal. f_equal. lia.
+Qed.
+
+Lemma mk_hops_fwd_labels F R : length F = length R -> fwd_labels (mk_hops F R) = F.
+Proof.
+  intros H. unfold fwd_labels. rewrite mk_hops_length by assumption.
+  replace (S (length F) - 1)%nat with (length F) by lia.
+  rewrite <- firstn_map, mk_hops_fst by assumption. apply firstn_exact. reflexivity.
+Qed.
+
+Lemma mk_hops_ret_labels F R : length F = length R -> ret_labels (mk_hops F R) = rev R.
+Proof.
+  intros H. unfold ret_labels. rewrite <- skipn_map, mk_hops_snd by assumption. reflexivity.
+Qed.
+
+Lemma build_blocks_nonempty hops : hops <> [] ->
+  build_blocks hops =
+  (do size <- calc_size hops;
+   if Nat.leb (length (encs (fwd_labels hops))) size && Nat.leb (length (encs (ret_labels hops))) size
+   then Ok (pad (encs (fwd_labels hops)) size, pad (encs (ret_labels hops)) size) else Panic).
+Proof. destruct hops; [congruence|reflexivity]. Qed.
+
+Lemma mk_hops_nonempty F R : length F = length R -> mk_hops F R <> [].
+Proof. intros H Hh. apply (f_equal (@length _)) in Hh. rewrite mk_hops_length in Hh by assumption. discriminate. Qed.
+
+Lemma build_blocks_mk_hops f0 Ft R sz :
+  length (f0 :: Ft) = length R -> labels_ok (f0 :: Ft) -> labels_ok R ->
+  calc_size (mk_hops (f0 :: Ft) R) = Ok sz ->
+  build_blocks (mk_hops (f0 :: Ft) R) =
+  Ok (encs (f0 :: Ft) ++ repeat 0 (sz - lenl (f0 :: Ft)), encs (rev R) ++ repeat 0 (sz - lenl R)).
+Proof.
+  intros Hlen HF HR Hc. destruct (calc_size_room _ _ _ _ Hlen Hc) as (H0 & Hn & _ & _ & _).
+  rewrite build_blocks_nonempty by (apply mk_hops_nonempty; exact Hlen).
+  rewrite Hc. cbn [bind].
+  rewrite mk_hops_fwd_labels, mk_hops_ret_labels by assumption.
+  rewrite !encs_length by (try apply labels_ok_rev; assumption). rewrite lenl_rev.
+  replace (Nat.leb (lenl (f0 :: Ft)) sz) with true by (symmetry; apply Nat.leb_le; exact H0).
+  replace (Nat.leb (lenl R) sz) with true by (symmetry; apply Nat.leb_le; exact Hn).
+  cbn [andb]. unfold pad. rewrite !encs_length by (try apply labels_ok_rev; assumption). rewrite lenl_rev.
+  reflexivity.
+Qed.
+
+(* ---------- main theorems ---------- *)
+Theorem forward_traversal F R sz fb rb extra :
+  F <> [] -> length F = length R -> labels_ok F -> labels_ok R ->
+  calc_size (mk_hops F R) = Ok sz ->
+  build_blocks (mk_hops F R) = Ok (fb, rb) ->
+  exists b', traverse fb extra (0 :: R) = Ok (F ++ [0], b', extra) /\
+             length b' = length fb /\ transform b' = rb.
+Proof.
+  intros Hne Hlen HF HR Hc Hb. destruct F as [|f0 Ft]; [congruence|].
+  rewrite (build_blocks_mk_hops _ _ _ _ Hlen HF HR Hc) in Hb. inversion Hb; subst fb rb; clear Hb.
+  destruct (calc_size_room _ _ _ _ Hlen Hc) as (H0 & Hn & _ & Hroom & _).
+  pose proof (esize_pos f0) as Hp.
+  eexists. split; [apply traverse_all; assumption|].
+  pose proof (final_slack_spec _ _ _ Hroom) as Hfs. rewrite lenl_cons in *.
+  split.
+  - rewrite !app_length, !repeat_length, rencs_length, encs_length by assumption. rewrite lenl_cons. lia.
+  - rewrite transform_rencs by assumption. f_equal. f_equal. lia.
+Qed.
+
+Theorem return_traversal F R sz fb rb extra :
+  F <> [] -> length F = length R -> labels_ok F -> labels_ok R ->
+  calc_size (mk_hops F R) = Ok sz ->
+  build_blocks (mk_hops F R) = Ok (fb, rb) ->
+  exists b', traverse rb extra (0 :: rev F) = Ok (rev R ++ [0], b', extra) /\
+             length b' = length rb /\ transform b' = fb.
+Proof.
+  intros Hne Hlen HF HR Hc Hb. destruct F as [|f0 Ft]; [congruence|].
+  rewrite (build_blocks_mk_hops _ _ _ _ Hlen HF HR Hc) in Hb. inversion Hb; subst fb rb; clear Hb.
+  pose proof Hc as Hc'. apply calc_size_mk_hops in Hc'; [|assumption|discriminate]. destruct Hc' as [HS _].
+  assert (Hwin : forall i, (i <= length R + 1)%nat ->
+     (window (map esize (f0 :: Ft) ++ 1%nat :: map esize R) (length R) i <= sz)%nat).
+  { intros i Hi. rewrite HS. rewrite <- Hlen. apply max_list_ge. apply in_map. apply in_seq. lia. }
+  pose proof (windows_mirror _ _ _ Hlen Hwin) as Hwin'.
+  destruct (rev R) as [|g0 Gt] eqn:HrevR.
+  { apply (f_equal (@length _)) in HrevR. rewrite rev_length in HrevR. cbn [length] in *. lia. }
+  assert (Hlen' : length (g0 :: Gt) = length (rev (f0 :: Ft))).
+  { rewrite <- HrevR, !rev_length. lia. }
+  assert (HG : labels_ok (g0 :: Gt)) by (rewrite <- HrevR; apply labels_ok_rev; exact HR).
+  assert (HF' : labels_ok (rev (f0 :: Ft))) by (apply labels_ok_rev; exact HF).
+  destruct (room_of_windows g0 Gt (rev (f0 :: Ft)) sz Hlen' Hwin') as (H0 & Hn & Hroom).
+  pose proof (esize_pos g0) as Hp.
+  assert (HlenlG : lenl (g0 :: Gt) = lenl R) by (rewrite <- HrevR; apply lenl_rev).
+  rewrite <- HlenlG.
+  eexists. split; [apply traverse_all; assumption|].
+  pose proof (final_slack_spec _ _ _ Hroom) as Hfs. rewrite lenl_rev in *. rewrite (lenl_cons g0) in *.
+  split.
+  - rewrite !app_length, !repeat_length, rencs_length, encs_length by assumption. rewrite lenl_rev, (lenl_cons g0). lia.
+  - rewrite transform_rencs by assumption. rewrite rev_involutive. f_equal. f_equal. lia.
+Qed.
+
+(* ---------- BuildBlocks never panics (any uint16 labels, any number of hops) ---------- *)
+Definition u16 (x : N) : Prop := x < 65536.
+
+Lemma encs_length_u16 l : Forall u16 l -> length (encs l) = lenl l.
+Proof.
+  induction 1 as [|x l Hx Hl IH]; [reflexivity|].
+  rewrite encs_cons, app_length, IH, lenl_cons, enc_length by exact Hx. reflexivity.
+Qed.
+
+Lemma firstn_In {X} (x : X) : forall n l, In x (firstn n l) -> In x l.
+Proof. induction n as [|n IH]; intros [|y l]; cbn [firstn In]; try tauto. intros [->|H]; [left; reflexivity|right; apply IH; exact H]. Qed.
+Lemma skipn_In {X} (x : X) : forall n l, In x (skipn n l) -> In x l.
+Proof. induction n as [|n IH]; intros [|y l]; cbn [skipn In]; try tauto. intros H. right. apply IH. exact H. Qed.
+
+Lemma size_sim_split hops :
+  size_sim hops = map esize (fwd_labels hops) ++ map esize (map snd hops).
+Proof. unfold size_sim, fwd_labels. rewrite !map_map. reflexivity. Qed.
+
+Lemma calc_size_bounds hops sz : hops <> [] -> calc_size hops = Ok sz ->
+  (lenl (fwd_labels hops) <= sz)%nat /\ (lenl (ret_labels hops) <= sz)%nat /\ (sz <= 255)%nat.
+Proof.
+  intros Hne H. unfold calc_size in H. destruct hops as [|h0 hs]; [congruence|].
+  destruct (negb _); [discriminate|].
+  set (hops := h0 :: hs) in *. set (n := length hops) in *.
+  set (s := max_list (map (window (size_sim hops) (n - 1)) (seq 0 (n + 1)))) in *.
+  destruct (Nat.ltb_spec 255 s); inversion H; subst sz; clear H.
+  assert (Hwin : forall i, (i <= n)%nat -> (window (size_sim hops) (n - 1) i <= s)%nat).
+  { intros i Hi. apply max_list_ge. apply in_map. apply in_seq. lia. }
+  assert (HlenA : length (map esize (fwd_labels hops)) = (n - 1)%nat).
+  { unfold fwd_labels. rewrite !map_length, firstn_length. fold n. lia. }
+  split; [|split; [|lia]].
+  - specialize (Hwin 0%nat). rewrite size_sim_split in Hwin. unfold window in Hwin. cbn [skipn] in Hwin.
+    rewrite firstn_exact in Hwin by (symmetry; exact HlenA). apply Hwin. lia.
+  - specialize (Hwin n). rewrite size_sim_split in Hwin. unfold window in Hwin.
+    rewrite skipn_app, HlenA in Hwin.
+    rewrite (skipn_all2 (n := n)) in Hwin by (rewrite HlenA; lia). cbn [app] in Hwin.
+    replace (n - (n - 1))%nat with 1%nat in Hwin by (unfold n, hops; cbn [length]; lia).
+    rewrite firstn_all2 in Hwin by (rewrite skipn_length, !map_length; fold n; lia).
+    unfold ret_labels. rewrite lenl_rev. unfold lenl. rewrite <- skipn_map. apply Hwin. lia.
+Qed.
+
+Theorem build_blocks_no_panic hops :
+  Forall (fun h => u16 (fst h) /\ u16 (snd h)) hops -> build_blocks hops <> Panic.
+Proof.
+  intros Hu. destruct hops as [|h0 hs]; [discriminate|].
+  rewrite build_blocks_nonempty by discriminate.
+  destruct (calc_size (h0 :: hs)) as [sz|e|] eqn:Hc; cbn [bind]; [|discriminate|].
+  - assert (Hne : h0 :: hs <> []) by discriminate.
+    destruct (calc_size_bounds _ _ Hne Hc) as (H1 & H2 & _).
+    assert (Hf : Forall u16 (fwd_labels (h0 :: hs))).
+    { unfold fwd_labels. apply Forall_forall. intros x Hx. apply in_map_iff in Hx as (h & <- & Hin).
+      apply firstn_In in Hin. rewrite Forall_forall in Hu. apply (Hu h Hin). }
+    assert (Hr : Forall u16 (ret_labels (h0 :: hs))).
+    { unfold ret_labels. apply Forall_forall. intros x Hx. apply in_rev in Hx. apply in_map_iff in Hx as (h & <- & Hin).
+      apply skipn_In in Hin. rewrite Forall_forall in Hu. apply (Hu h Hin). }
+    rewrite !encs_length_u16 by assumption.
+    replace (Nat.leb (lenl (fwd_labels (h0 :: hs))) sz) with true by (symmetry; apply Nat.leb_le; exact H1).
+    replace (Nat.leb (lenl (ret_labels (h0 :: hs))) sz) with true by (symmetry; apply Nat.leb_le; exact H2).
+    discriminate.
+  - exfalso. unfold calc_size in Hc. destruct (negb _); [discriminate|]. destruct (Nat.ltb _ _); discriminate.
+Qed.
+
+(* a path whose labels cannot fit into 255 bytes is refused with an error *)
+Theorem too_big_refused hops i :
+  hops <> [] -> snd (hd (0,0) hops) = 0 -> fst (last hops (0,0)) = 0 ->
+  (i <= length hops)%nat -> (255 < window (size_sim hops) (length hops - 1) i)%nat ->
+  build_blocks hops = Err 2.
+Proof.
+  intros Hne Hh Hl Hi Hw. rewrite build_blocks_nonempty by assumption.
+  unfold calc_size. destruct hops as [|h0 hs]; [congruence|]. cbn [hd] in Hh. rewrite Hh, Hl.
+  replace (0 =? 0) with true by reflexivity. cbn [andb negb].
+  set (n := length (h0 :: hs)) in *.
+  assert (Hge : (window (size_sim (h0 :: hs)) (n - 1) i <= max_list (map (window (size_sim (h0 :: hs)) (n - 1)) (seq 0 (n + 1))))%nat).
+  { apply max_list_ge. apply in_map. apply in_seq. lia. }
+  destruct (Nat.ltb_spec 255 (max_list (map (window (size_sim (h0 :: hs)) (n - 1)) (seq 0 (n + 1))))); [reflexivity|lia].
+Qed.
+
+(* the computed size is the maximum of the live lengths: sufficient (every one fits) and
+   minimal (one of them is exactly that long) *)
+Theorem size_sufficient_minimal F R sz :
+  F <> [] -> length F = length R -> calc_size (mk_hops F R) = Ok sz ->
+  let live := window (map esize F ++ 1%nat :: map esize R) (length R) in
+  (forall i, (i <= length R + 1)%nat -> (live i <= sz)%nat) /\
+  (exists i, (i <= length R + 1)%nat /\ live i = sz).
+Proof.
+  intros Hne Hlen Hc. destruct F as [|f0 Ft]; [congruence|]. cbv zeta. split.
+  - pose proof Hc as Hc'. apply calc_size_mk_hops in Hc'; [|assumption|discriminate]. destruct Hc' as [HS _].
+    intros i Hi. rewrite HS, <- Hlen. apply max_list_ge. apply in_map. apply in_seq. lia.
+  - destruct (calc_size_room _ _ _ _ Hlen Hc) as (_ & _ & _ & _ & Hex). exact Hex.
 Qed.
